@@ -117,7 +117,7 @@ def gen(rng, tier, index):
         elif x < 0.4:
             ops.append({"what": "list:bodies_same_kind"})
         else:
-            ops.append({"what": targets[int(rng.integers(len(targets)))], "file_name": None if rng.random() < 0.6 else str(rng.choice(["a", "b"]))})
+            ops.append({"what": targets[int(rng.integers(len(targets)))], "file_name": None if rng.random() < 0.6 else str(rng.choice(["a", "b", "v1.2", "ball_r0.5"]))})
             w = ops[-1]["what"]
             if w.startswith("body") and scene["bodies"][int(w[4:])].get("mesh") and rng.random() < 0.3:
                 ops[-1]["base_export"] = True  # the point-like export of the underlying rigid body instead of its mesh
